@@ -1,5 +1,6 @@
 SPECIFICATION Spec
 CONSTANTS
   Menus <- MenusGenQ
+  FixTime = TRUE
 INVARIANTS Emit
 CHECK_DEADLOCK FALSE
